@@ -429,15 +429,16 @@ def smtlibscript_from_formula(formula: FNode, logic: Optional[Union[str, int, Lo
     # Declare all types
     types = get_env().typeso.get_types(formula, custom_only=True)
     declared_sorts = set()
-    for type_ in types:
+    for type_ in sorted(types, key=lambda t: (t.decl.name, t.decl.arity)):
         # Instances of a parametric sort share one declaration
         if (type_.decl.name, type_.decl.arity) not in declared_sorts:
             declared_sorts.add((type_.decl.name, type_.decl.arity))
             script.add(name=smtcmd.DECLARE_SORT, args=[type_.decl])
 
     deps = formula.get_free_variables()
-    # Declare all variables
-    for symbol in deps:
+    # Declare all variables (in an order that does not depend on the
+    # history of the environment)
+    for symbol in sorted(deps, key=lambda s: s.symbol_name()):
         assert symbol.is_symbol()
         script.add(name=smtcmd.DECLARE_FUN, args=[symbol])
 
